@@ -8,6 +8,7 @@
 
 #include <filesystem>
 #include <fstream>
+#include <optional>
 
 namespace fs = std::filesystem;
 using namespace tulz;
@@ -87,8 +88,25 @@ void run_c17(const Case &c) {
     if (wops.empty()) wops.push_back(Op{WRITE, 3, 0, 0});
     const int wmode0 = wmode;
     std::string model = (wmode >= 2) ? pre : std::string();
+    // one long-lived File object for the whole history (h[5] bit 1): it first reads what is there (size(), readStr() in a read
+    // mode), is then re-opened for the write phase and re-opened again for the read phase - nothing learnt about an earlier
+    // stream may survive open()
+    const bool same_object = (hget(c, 5, 0) & 2) != 0;
+    File fobj;
+    if (same_object) {
+        label("one_file_object");
+        if (fs::exists(path)) {
+            fobj.open(Path(path), RM[rmode]);
+            if (fobj.size() != pre.size()) violation("SIZE", "before the write phase: size() = %zu, the file holds %zu bytes", fobj.size(), pre.size());
+            if ((hget(c, 1, 0) & 4)) same_bytes("before the write phase", "readStr()", fobj.readStr(), pre);
+            else same_bytes("before the write phase", "read()", [&] { Array<byte> a = fobj.read(); return std::string(reinterpret_cast<const char *>(a.array()), a.size()); }(), pre);
+            label("one_file_object_read_before_write");
+        }
+    }
     {
-        File f(Path(path), WM[wmode]);
+        std::optional<File> wlocal;
+        if (!same_object) wlocal.emplace(Path(path), WM[wmode]); else fobj.open(Path(path), WM[wmode]);
+        File &f = same_object ? fobj : *wlocal;
         if (!f.isOpen()) violation("ROUNDTRIP", "File is not open after opening for writing");
         if (f.getMode() != WM[wmode]) violation("ROUNDTRIP", "getMode() differs from the mode the file was opened with");
         size_t off = 0;
@@ -166,7 +184,9 @@ void run_c17(const Case &c) {
     if (model.size() > 4096) label("content_over_4096");
     if (model.empty()) label("content_empty");
     bool size_at_nonzero = false;
-    File f(path, RM[rmode]);
+    std::optional<File> rlocal;
+    if (!same_object) rlocal.emplace(path, RM[rmode]); else fobj.open(Path(path), RM[rmode]);
+    File &f = same_object ? fobj : *rlocal;
     long pos = 0; const long len = (long)model.size();
     int opno = 0;
     for (const Op &o : rops) {
